@@ -20,8 +20,14 @@ def run(ctx):
              "derives the indices with the modelled PseudorandomSelection; every case is run twice (determinism); non-trivial = success with ineligible nodes present")
     ctx.trust("SHA3-256 (pc.Hash) is not modelled: the driver receives the first 8 bytes of each re-hashed session key")
     ctx.assume("GetValidatorsByChain returns a duplicate-free list and total = len(list)", "Validator(ctx, a) returns the record stored under a")
+    ctx.rule("c33 keeper stream: the by-chain index is reached through the real x/nodes keeper only - 1-9 nodes enter by the real MsgStake handler, "
+             "then 4-24 steps of jail (JailValidator), MsgUnjail, MsgBeginUnstake, edit-stake on/off the chain, re-stake, new nodes, real EndBlocker blocks "
+             "(release of waiting validators at session end, forced unstake after MaxJailedBlocks 3-8, unstaking time of ~3 blocks) and scripted sequences "
+             "(jail -> unstake while jailed -> blocks -> unjail; jail beyond MaxJailedBlocks -> unjail; unstake -> mature -> stake again); then three session draws "
+             "by the real NewSessionNodes against that keeper; the driver judges every selected node on its real record: in the index list, eligible, status staked")
     n = 40000 if ctx.thorough else 2500
     ctx.stream("sessions", "c33", DRIVER, n=n)
+    ctx.stream("keeper", "c33", DRIVER, n=6000 if ctx.thorough else 900, args=["-mode", "keeper"])
     if ctx.thorough:
         for s in range(2):
             ctx.stream(f"sessions-s{s}", "c33", DRIVER, n=20000, seed=ctx.seed * 1000 + 33 + s)
@@ -30,3 +36,5 @@ def run(ctx):
 def search(ctx):
     for s in range(3):
         ctx.stream(f"search{s}", "c33", DRIVER, n=10000, seed=ctx.seed * 7919 + s, count=False)
+    for s in range(2):
+        ctx.stream(f"search-keeper{s}", "c33", DRIVER, n=4000, seed=ctx.seed * 7919 + 11 + s, args=["-mode", "keeper"], count=False)
